@@ -37,7 +37,7 @@ class Gen:
         rng = self.rng
         env = names_env
         names = sorted(env)
-        k = rng.choice(["ap", "ap", "rm", "rmv", "get", "get", "len", "av", "scan"] + ([] if self.owned else ["dc", "at"]))
+        k = rng.choice(["ap", "ap", "rm", "rmv", "get", "get", "len", "av", "scan"] + ([] if self.owned else ["dc", "at", "af"]))
         x = rng.choice(names)
         if k == "ap":
             v = rng.randint(-5, 9)
@@ -73,6 +73,14 @@ class Gen:
             y = rng.choice(cands)
             env[x] = list(env[y])
             return ("av", x, y)
+        if k == "af":
+            # re-assignment from a helper that returns another (global) list: must clone like `x = y`
+            cands = [y for y in names if y != x and y in ("a", "b", "c")]
+            if not cands or x not in ("a", "b", "c"):
+                return ("len", x)
+            y = rng.choice(cands)
+            env[x] = list(env[y])
+            return ("af", x, y)
         if k == "dc":
             self.ncopy = getattr(self, "ncopy", 0) + 1      # always a fresh name: a second `y = …` would be an assignment, not a declaration
             y = f"c{len(env)}_{self.ncopy}"
@@ -97,6 +105,8 @@ def stmt(op):
         return f"for i in range(len({op[1]})):\n    mon.write({op[1]}[i])"
     if k in ("dc", "av"):
         return f"{op[1]} = {op[2]}"
+    if k == "af":
+        return f"{op[1]} = get_{op[2]}()"
     if k == "at":
         return f"{op[1]} = {op[2]!r}"
     if k == "ap":
@@ -123,6 +133,8 @@ def mtok(op):
         return ";".join([f"len {op[1]}"] + [f"get {op[1]} {i}" for i in range(op[2])])
     if k in ("dc", "av"):
         return f"{k} {op[1]} {op[2]}"
+    if k == "af":
+        return f"av {op[1]} {op[2]}"
     if k == "at":
         return f"at {op[1]} {csv(op[2])}"
     if k in ("ap", "rm", "get"):
@@ -152,7 +164,11 @@ def gen_case(rng, owned):
             env[name] = vals
             setup.append(("dm", name, vals))
     for _ in range(rng.randint(0, 5)):
-        setup.append(g.op("setup", env))
+        o = g.op("setup", env)
+        setup.append(o)
+        if o[0] in ("af", "av") and env[o[1]]:
+            # after a copying re-assignment: change the source, then read through the target (must still be its own copy)
+            setup += [("ap", o[2], 88), ("rm", o[2], 88), ("get", o[1], 0)]
     # loop body: ops whose net effect on sizes is zero in the owned discipline (append then remove the same value)
     loop = []
     for _ in range(rng.randint(1, 4)):
@@ -162,7 +178,7 @@ def gen_case(rng, owned):
             loop += [("ap", x, v), ("rm", x, v)] if owned or rng.random() < 0.7 else [("ap", x, v)]
         else:
             o = g.op("loop", dict(env))
-            if o[0] in ("ap", "rm", "rmv", "av", "dc", "at") and owned:
+            if o[0] in ("ap", "rm", "rmv", "av", "dc", "at", "af") and owned:
                 o = ("len", o[1])
             if o[0] in ("rmv", "rm") or (o[0] == "scan" and not owned):
                 o = ("len", o[1])     # per-pass tokens are static: no data-dependent forms in a loop whose sizes drift
@@ -171,7 +187,11 @@ def gen_case(rng, owned):
 
 
 def build(setup, loop, passes):
-    lines = HEAD + ["mon = SerialMonitor(9600)"] + [ln for o in setup for ln in stmt(o).split("\n")] + ['mon.write("#")', "while True:"]
+    used = sorted({o[2] for o in setup + loop if o[0] == "af"})
+    decl_end = max([i for i, o in enumerate(setup) if o[0] in ("dm", "dmr", "dms")], default=-1) + 1
+    helpers = [ln for y in used for ln in (f"def get_{y}():", f"    return {y}")]
+    lines = (HEAD + ["mon = SerialMonitor(9600)"] + [ln for o in setup[:decl_end] for ln in stmt(o).split("\n")] + helpers +
+             [ln for o in setup[decl_end:] for ln in stmt(o).split("\n")] + ['mon.write("#")', "while True:"])
     for o in loop:
         lines += ["    " + ln for ln in stmt(o).split("\n")]
     lines.append('    mon.write("#")')
@@ -191,7 +211,7 @@ def py_run(setup, loop, passes):
         elif k == "dms": env[o[1]] = [i + o[5] for i in range(o[2], o[3], o[4])]
         elif k == "rmv": env[o[1]].remove(env[o[1]][o[2]])
         elif k == "scan": out.extend(env[o[1]])
-        elif k in ("dc", "av"): env[o[1]] = env[o[2]]
+        elif k in ("dc", "av", "af"): env[o[1]] = env[o[2]]
         elif k == "at": env[o[1]] = list(o[2])
         elif k == "ap": env[o[1]].append(o[2])
         elif k == "rm": env[o[1]].remove(o[2])
@@ -216,6 +236,11 @@ def run(ctx: Ctx) -> int:
     # pinned findings
     cases.append(("alias", [("dm", "a", [1, 2, 3]), ("dc", "b", "a"), ("ap", "a", 1), ("get", "b", 0)], [("len", "a")], 2))
     cases.append(("temp", [("dm", "a", [1, 2, 3])], [("at", "a", [4, 5, 6]), ("len", "a")], 4))
+    # pinned sound forms: re-assignment of a declared list from a variable / from a helper returning a list must clone
+    cases.append(("reassign-var", [("dm", "a", [1, 2, 3]), ("dm", "b", [7, 8, 9]), ("av", "b", "a"), ("ap", "a", 4), ("rm", "a", 4), ("get", "b", 0)],
+                  [("av", "b", "a"), ("ap", "a", 77), ("rm", "a", 77), ("get", "b", -1)], 3))
+    cases.append(("reassign-call", [("dm", "a", [1, 2, 3]), ("dm", "b", [7, 8, 9]), ("af", "b", "a"), ("ap", "a", 4), ("rm", "a", 4), ("get", "b", 0)],
+                  [("af", "b", "a"), ("ap", "a", 77), ("rm", "a", 77), ("get", "b", -1)], 3))
     for i in range(ctx.n(60, 700)):
         owned = rng.random() < 0.8
         s, l = gen_case(rng, owned)
@@ -276,7 +301,7 @@ def run(ctx: Ctx) -> int:
                     diverged = True
                 if o[0] == "rmv":
                     after_rmv = True
-            key = ("heap:list-copy-semantics" if ({"dc", "av"} & forms) else
+            key = ("heap:list-copy-semantics" if ("dc" in forms) else
                    "heap:stale-length-after-runtime-remove" if (diverged and "scan" in forms) else "heap:memory-error")
             ctx.fail(key, f"memory error in firmware ({san}) although Python runs without IndexError: {res.stderr[:300]}", replay)
             if tie_pending and not ctx.is_known(key):
@@ -294,7 +319,7 @@ def run(ctx: Ctx) -> int:
         forms = {o[0] for o in setup + loop}
         # (printed values are C01/C03's subject — e.g. a folded len() — and are not judged here)
         if len(set(pylive[1:])) == 1 and len(set(heaps[1:])) > 1:
-            key = "heap:temp-leak" if "at" in forms else ("heap:list-copy-semantics" if ({"dc", "av"} & forms) else "heap:leak-across-passes")
+            key = "heap:temp-leak" if "at" in forms else ("heap:list-copy-semantics" if ("dc" in forms) else "heap:leak-across-passes")
             ctx.fail(key, f"live array blocks per pass {heaps} while the Python program's live list data stays {pylive[1]}", replay)
     ctx.cov["rule"] = ("list programs: 1-3 lists from literals/comprehensions, append/remove/index (incl. negative)/len/copy-assign in setup and in the main loop, "
                        "2-17 passes; 80% in the owned discipline (no alias-creating first copy, no re-assignment from a literal), 20% with those forms; "
